@@ -316,7 +316,11 @@ impl<'a> Runner<'a> {
                 let (ok, doc) = match &s {
                     None => (0, String::new()),
                     Some(s) => {
-                        let doc = serde_json::to_string(s).unwrap();
+                        let mut doc = serde_json::to_string(s).unwrap();
+                        // every other time: the equivalent document a JSON store hands back (object keys sorted)
+                        if self.seq % 2 == 1 {
+                            doc = serde_json::to_string(&serde_json::from_str::<Value>(&doc).unwrap()).unwrap();
+                        }
                         match serde_json::from_str::<Session>(&doc) {
                             Ok(copy) => {
                                 match dev {
@@ -1119,6 +1123,8 @@ pub struct Gen {
     pub last_fopts: Vec<u8>,
     /// the CFList of the previous JoinAccept (sometimes sent again: a re-join usually repeats the channel list)
     pub last_cf: Option<(i32, Vec<u8>)>,
+    /// the scripted DevNonce draw of the previous join attempt (sometimes drawn again: a weak RNG repeats itself)
+    pub last_nonce: u32,
 }
 
 fn rnd_vec(rng: &mut StdRng, n: usize) -> Vec<u8> {
@@ -1127,7 +1133,7 @@ fn rnd_vec(rng: &mut StdRng, n: usize) -> Vec<u8> {
 
 impl Gen {
     pub fn new(seed: u64, cfg: GenCfg) -> Gen {
-        Gen { rng: StdRng::seed_from_u64(seed), cfg, sent: vec![], join_nonce: 1, walk: 0, last_fopts: vec![], last_cf: None }
+        Gen { rng: StdRng::seed_from_u64(seed), cfg, sent: vec![], join_nonce: 1, walk: 0, last_fopts: vec![], last_cf: None, last_nonce: 0 }
     }
 
     fn cflist(&mut self) -> (i32, Vec<u8>) {
@@ -1502,6 +1508,25 @@ impl Gen {
         Some(Op::Send { port: 3, data: vec![k as u8, phase as u8], confirmed: false, draws: vec![], plan })
     }
 
+    /// Scripted first random draw of a join attempt (the DevNonce): half of the attempts draw one of the values
+    /// where a nonce rule can go wrong - 0, a value whose low 16 bits are 0, 0xFFFF, and the very value (or the
+    /// same low half) the previous attempt drew; the others leave it to the seeded RNG.
+    fn join_draws(&mut self) -> Vec<u32> {
+        if !self.rng.gen_bool(0.5) {
+            return vec![];
+        }
+        let d = match self.rng.gen_range(0..6) {
+            0 => 0,
+            1 => 0x0001_0000,
+            2 => 0xFFFF,
+            3 => self.last_nonce,
+            4 => self.last_nonce ^ 0x0101_0000,
+            _ => self.rng.r#gen(),
+        };
+        self.last_nonce = d;
+        vec![d]
+    }
+
     pub fn next(&mut self, v: &View) -> Option<Op> {
         if self.cfg.rxwin_stride > 0 {
             return self.next_rxwin(v);
@@ -1519,7 +1544,7 @@ impl Gen {
                     appkey: self.cfg.appkey,
                     deveui: [1, 2, 3, 4, 5, 6, 7, 8],
                     appeui: [8, 7, 6, 5, 4, 3, 2, 1],
-                    draws,
+                    draws: self.join_draws(),
                     plan: self.plan(v, true),
                 },
                 7 | 8 => Op::JoinAbp { nwk: self.rng.r#gen(), app: self.rng.r#gen(), addr: self.rng.r#gen() },
@@ -1531,7 +1556,7 @@ impl Gen {
                 appkey: self.cfg.appkey,
                 deveui: [1, 2, 3, 4, 5, 6, 7, 8],
                 appeui: [8, 7, 6, 5, 4, 3, 2, 1],
-                draws,
+                draws: self.join_draws(),
                 plan: self.plan(v, true),
             });
         }
@@ -1569,7 +1594,7 @@ impl Gen {
                 appkey: self.cfg.appkey,
                 deveui: [1, 2, 3, 4, 5, 6, 7, 8],
                 appeui: [8, 7, 6, 5, 4, 3, 2, 1],
-                draws,
+                draws: self.join_draws(),
                 plan: self.plan(v, true),
             },
             _ => {
@@ -1740,6 +1765,22 @@ pub fn vh_mac(a: &Args) {
                     }
                 }
                 h += 1;
+            }
+            // Join walk, fixed plans: a long run of unanswered join attempts under each join-bias setting (none, the
+            // compliant single try, several tries on the preferred sub-band): every attempt must put one JoinRequest
+            // on a join channel with the data rate it mandates - the walk over the nine banks of eight channels never
+            // runs dry, whatever was tried before (C09: channel selection always terminates; C04)
+            if a.get("profile") == Some("onlych") && (region == "US915" || region == "AU915") && front == "async" {
+                for (sb, retries) in [(0u8, 1usize), (3, 1), (2, 2), (6, 8)] {
+                    let mut ops = vec![Op::Reset { region: region.clone(), front: "async".into(), classc: false, board: 0, bias_sb: sb, bias_retries: retries,
+                                                   lead: 10, buffer: 10, offset: 0, duration: 500, session: None }];
+                    for _ in 0..(if a.thorough { 400 } else { 150 }) {
+                        ops.push(Op::JoinOtaa { appkey: [7u8; 16], deveui: [1, 2, 3, 4, 5, 6, 7, 8], appeui: [8, 7, 6, 5, 4, 3, 2, 1], draws: vec![],
+                                                plan: Proc { tx: "done".into(), ts: 10, fault: -1, ..Default::default() } });
+                    }
+                    let _ = run_history(out.shard(h), &ops, a.seed ^ (h as u64) ^ 0x101, None);
+                    h += 1;
+                }
             }
             // Window walk, fixed plans: data uplinks sent while a join bias is still in force (preferred sub-band
             // with several retries, joined early, JoinAccept without CFList, no channel mask received yet) go out
